@@ -89,6 +89,8 @@ HOSTILE_COMPONENTS = [
     "plain", "with space", "it's", 'dq"uote', "back\\slash", "$HOME", "$(id)", "star*", "q?mark", "[abc]", "new\nline", "tab\tname",
     "-dash", "--delete", "..x", "x..", "...", "日本語", "é", "a;b", "a&b", "`tick`", "percent%41", "semi;colon", "~tilde", "#hash", "pipe|x", "{brace}",
     "trailingdot.", ".hidden", "UPPER", "a" * 200,
+    # backslash sequences that mean something inside $'...' if an escaping step is forgotten
+    "bs\\nx", "bs\\tx", "trail\\", "q\\'x", "oct\\101", "bs\\\\2",
 ]
 
 
